@@ -518,3 +518,101 @@ fn mk_zst_owner(_a: &[u8; 4]) -> ZstOwner {
 owner_case!(owner_vec, mk_vec_owner, 4);
 // @h props=C03,C02 tier=quick flags=leak group=seq note=from_owner(zero-sized_owner_with_empty_slice)
 owner_case!(owner_zst, mk_zst_owner, 0);
+
+// ================================================================================== remaining constructors / iterator plumbing (C01)
+fn misc(which: u8) {
+    let a: [u8; 3] = kani::any();
+    let model = M::of(&a, 3);
+    match which {
+        0 => {
+            let b: Bytes = a.iter().copied().collect();
+            agree(&b, &model);
+        }
+        1 => {
+            let m: BytesMut = a.iter().copied().collect();
+            agree(&m, &model);
+        }
+        2 => {
+            let mut m = BytesMut::with_capacity(4);
+            m.extend(a.iter());
+            agree(&m, &model);
+            m.extend([0x5Au8].iter().copied());
+            assert!(m.len() == 4 && m[3] == 0x5A);
+        }
+        3 => {
+            // Extend<Bytes>
+            let mut m = BytesMut::with_capacity(8);
+            m.extend(core::iter::once(mk_bytes(Rep::Shared, &a)));
+            m.extend(core::iter::once(Bytes::from_static(b"zz")));
+            assert!(m.len() == 5);
+            agree(&m[..3], &model);
+            assert!(m[3] == b'z' && m[4] == b'z');
+        }
+        4 => {
+            let b = mk_bytes(Rep::Promo, &a);
+            let mut it = b.into_iter();
+            assert!(it.next() == Some(a[0]) && it.next() == Some(a[1]) && it.next() == Some(a[2]) && it.next().is_none());
+        }
+        5 => {
+            assume_ascii(&a);
+            let s = unsafe { core::str::from_utf8_unchecked(&a) };
+            let m = BytesMut::from(s);
+            agree(&m, &model);
+            let mut st = alloc::string::String::with_capacity(3);
+            st.push_str(s);
+            let b = Bytes::from(st);
+            agree(&b, &model);
+        }
+        6 => {
+            let b = Bytes::copy_from_slice(&a);
+            agree(&b, &model);
+            assert!(b.as_ptr() != a.as_ptr());
+            let bx: alloc::boxed::Box<[u8]> = alloc::boxed::Box::new(a);
+            let b2 = Bytes::from(bx);
+            agree(&b2, &model);
+        }
+        7 => {
+            let z = BytesMut::zeroed(3);
+            assert!(z.len() == 3 && z[any_below(3)] == 0);
+        }
+        _ => {
+            use core::fmt::Write;
+            assume_ascii(&a);
+            let s = unsafe { core::str::from_utf8_unchecked(&a) };
+            let mut m = BytesMut::with_capacity(4);
+            assert!(m.write_str(s).is_ok());
+            agree(&m, &model);
+        }
+    }
+    end_reached!();
+}
+
+macro_rules! misc_case {
+    ($name:ident, $which:expr) => {
+        #[kani::proof]
+        #[kani::unwind(8)]
+        #[kani::stub(core::slice::index::slice_index_fail, stub_slice_index_fail)]
+        pub fn $name() {
+            misc($which);
+        }
+    };
+}
+// @h props=C01,C02,C03 tier=quick flags=leak group=seq timeout=600 note=Bytes::from_iter
+misc_case!(misc_bytes_from_iter, 0);
+// @h props=C01,C02,C03 tier=quick flags=leak group=seq timeout=600 note=BytesMut::from_iter
+misc_case!(misc_bytesmut_from_iter, 1);
+// @h props=C01,C02,C03 tier=quick flags=leak group=seq timeout=600 note=BytesMut::extend(iter)
+misc_case!(misc_extend, 2);
+// @h props=C01,C02,C03 tier=quick flags=leak group=seq timeout=600 note=Extend<Bytes>_for_BytesMut
+misc_case!(misc_extend_bytes, 3);
+// @h props=C01,C02,C03 tier=quick flags=leak group=seq timeout=600 note=IntoIterator_for_Bytes
+misc_case!(misc_into_iter, 4);
+// @h props=C01,C02,C03 tier=quick flags=leak group=seq timeout=600 note=From<&str>_for_BytesMut,From<String>_for_Bytes
+misc_case!(misc_from_str, 5);
+// @h props=C01,C02,C03 tier=quick flags=leak group=seq timeout=600 note=copy_from_slice,From<Box<[u8]>>
+misc_case!(misc_copy_box, 6);
+// @h props=C01,C02,C03 tier=quick flags=leak group=seq timeout=600 note=BytesMut::zeroed
+misc_case!(misc_zeroed, 7);
+// @h props=C01,C02,C03 tier=quick flags=leak group=seq timeout=600 note=fmt::Write_for_BytesMut
+misc_case!(misc_write_str, 8);
+
